@@ -208,12 +208,17 @@ def _run_system(item):
     def viol(key, what, **kw):
         res["violations"].append(dict(key=key, what=what, date=item["date"], **kw))
 
+    # a spec in the parameters of the run that names a rule of the run is honoured whether or not the rule is marked
+    spec_groups = {t: g for g in params if isinstance(params[g], dict) and isinstance(params[g].get("rounding"), dict)
+                   for t in params[g]["rounding"]}
     for t in nodes:
         f = functions.get(t)
         info = getattr(f, "__info__", None) or {}
-        if kinds[t] != "rule" or "params_key_for_rounding" not in info or not shadow.is_scalar_rule(f):
+        if kinds[t] != "rule" or not ("params_key_for_rounding" in info or t in spec_groups) or not shadow.is_scalar_rule(f):
             continue
-        g = info["params_key_for_rounding"]
+        g = info.get("params_key_for_rounding") or spec_groups[t]
+        if "params_key_for_rounding" not in info:
+            res["unmarked_rules_with_spec"] = res.get("unmarked_rules_with_spec", 0) + 1
         spec = ref.rounding(g, d).get(t)
         if spec is None:
             viol(f"{t}:spec_missing", f"{t} is marked for rounding but the parameter file has no spec at {item['date']}")
@@ -271,7 +276,9 @@ def _run_system(item):
     import copy
 
     for t in res["rounded_nodes"][:3] if item["k"] == 0 else []:
-        g = functions[t].__info__["params_key_for_rounding"]
+        g = functions[t].__info__.get("params_key_for_rounding")
+        if g is None:
+            continue
         p2 = copy.deepcopy(params)
         del p2[g]["rounding"][t]
         res["fault_injections"] += 1
@@ -400,6 +407,7 @@ def summarize(results, tier, seed):
         values_checked=sum(r["values_checked"] for r in ok),
         system_values_off_grid_before_rounding=sum(r.get("off_grid_inputs", 0) for r in sysr),
         derived_nodes_checked=sum(r.get("derived_checked", 0) for r in sysr),
+        unmarked_rules_with_a_spec_checked=sum(r.get("unmarked_rules_with_spec", 0) for r in sysr),
         rounded_nodes_in_system_runs=sorted({t for r in sysr for t in r["rounded_nodes"]}),
         missing_spec_fault_injections=sum(r["fault_injections"] for r in ok),
         samples=[r["sample"] for r in spec if r.get("sample")][:3] + [r["sample"] for r in sysr[:1]],
